@@ -170,6 +170,7 @@ type modelEval struct {
 	fixed   []string
 	cache   map[Term]*sx
 	sortHint map[Term]string
+	typeHint map[Term]string
 	hintsCommitted bool
 	queries int
 	failed  bool
@@ -199,6 +200,9 @@ func (m *modelEval) eval(terms []Term) bool {
 			small = append(small, "(valSmall "+t+")")
 		case "Slice":
 			small = append(small, "(sliceSmall "+t+")")
+		}
+		if h, ok := m.typeHint[t]; ok && h != "true" {
+			small = append(small, h)
 		}
 	}
 	// hint levels, strongest first; the level that succeeds is committed for later rounds
@@ -393,6 +397,7 @@ func (g *goBuilder) valueOf(v *sx, t types.Type, depth int) string {
 		}
 		if _, isStruct := u.Elem().Underlying().(*types.Struct); isStruct && inModule(u.Elem()) {
 			comp := g.tr.cellComp(u.Elem())
+			g.m.typeHint[g.initRead(comp, IntLit(n))] = g.tr.eng.sorts.smallTerm(u.Elem(), g.initRead(comp, IntLit(n)), 0)
 			cell := g.m.get(g.initRead(comp, IntLit(n)))
 			g.stmts = append(g.stmts, fmt.Sprintf("%s := new(%s)", name, g.typeName(u.Elem())))
 			if cell != nil {
@@ -519,6 +524,9 @@ func (g *goBuilder) sliceOf(v *sx, u *types.Slice, t types.Type, depth int) stri
 			rt := g.initRead(comp, IntLit(arr), IntLit(i))
 			terms = append(terms, rt)
 			g.m.sortHint[rt] = comp.valSort
+			if !isInterface(u.Elem()) {
+				g.m.typeHint[rt] = g.tr.eng.sorts.smallTerm(u.Elem(), rt, 0)
+			}
 		}
 		g.m.eval(terms)
 		for i := off; i < hi; i++ {
@@ -641,7 +649,7 @@ func (c *CheckCtx) tryReplay(f *Failure, b *strings.Builder) {
 		}
 	}
 	hints = append(hints, fmt.Sprintf("(<= %s 40)", tr.alloc0))
-	m := &modelEval{c: c, tr: tr, cache: map[Term]*sx{}, sortHint: map[Term]string{}}
+	m := &modelEval{c: c, tr: tr, cache: map[Term]*sx{}, sortHint: map[Term]string{}, typeHint: map[Term]string{}}
 	for i, p := range root.Params {
 		m.sortHint[tr.rootAct.args[i]] = tr.rootAct.sortOf(p.Type())
 	}
@@ -651,7 +659,7 @@ func (c *CheckCtx) tryReplay(f *Failure, b *strings.Builder) {
 	}
 	m.base = tryBase
 	if !m.eval(tr.rootAct.args) {
-		m = &modelEval{c: c, tr: tr, cache: map[Term]*sx{}, base: base, sortHint: map[Term]string{}}
+		m = &modelEval{c: c, tr: tr, cache: map[Term]*sx{}, base: base, sortHint: map[Term]string{}, typeHint: map[Term]string{}}
 		if !m.eval(tr.rootAct.args) {
 			fmt.Fprintf(b, "replay: could not obtain a model with get-value\n")
 			return
